@@ -52,3 +52,34 @@ Print Assumptions C05_return_content_refuted.
 Example C05_nonvacuous : c05_ok ((2%nat, [{| st_chan := 1%nat; st_op := (ARpc 0%nat); st_script := [[(1%nat, {| f_name := NDeliver; f_num := (1)%Z; f_str := ([116]%N) |}); (1%nat, {| f_name := NHeader; f_num := (2)%Z; f_str := ([]%N) |}); (1%nat, {| f_name := NBody; f_num := (0)%Z; f_str := ([104;105]%N) |})]; [(2%nat, {| f_name := NUnknown; f_num := (0)%Z; f_str := ([]%N) |}); (1%nat, {| f_name := NDeclareOk; f_num := (1)%Z; f_str := ([]%N) |})]] |}; {| st_chan := 2%nat; st_op := (ARpc 0%nat); st_script := [[(2%nat, {| f_name := NDeclareOk; f_num := (2)%Z; f_str := ([]%N) |})]] |}; {| st_chan := 1%nat; st_op := ABuild; st_script := [] |}]))
   (chan_model ((2%nat, [{| st_chan := 1%nat; st_op := (ARpc 0%nat); st_script := [[(1%nat, {| f_name := NDeliver; f_num := (1)%Z; f_str := ([116]%N) |}); (1%nat, {| f_name := NHeader; f_num := (2)%Z; f_str := ([]%N) |}); (1%nat, {| f_name := NBody; f_num := (0)%Z; f_str := ([104;105]%N) |})]; [(2%nat, {| f_name := NUnknown; f_num := (0)%Z; f_str := ([]%N) |}); (1%nat, {| f_name := NDeclareOk; f_num := (1)%Z; f_str := ([]%N) |})]] |}; {| st_chan := 2%nat; st_op := (ARpc 0%nat); st_script := [[(2%nat, {| f_name := NDeclareOk; f_num := (2)%Z; f_str := ([]%N) |})]] |}; {| st_chan := 1%nat; st_op := ABuild; st_script := [] |}]))) = true.
 Proof. vm_compute. reflexivity. Qed.
+
+(* ---------- several threads on one channel ---------- *)
+From AV Require Import Model.ConcSem Proofs.ConcSemP Model.Src Gen.GenSrc Model.SrcShape.
+
+(* Any number of threads, any number of synchronous calls each, any reply
+   names (equal or different), EVERY schedule of their statements and of the
+   broker/reader: each finished call was handed the answer to its own request,
+   provided each call runs register / write / wait inside rpc.lock. *)
+Theorem C05_concurrent_own_reply : forall progs sched,
+  Forall (Forall (fun c => section_ok (cl_prog c) = true)) progs ->
+  own_results (crun progs sched) = true.
+Proof. exact own_reply_all_schedules. Qed.
+Print Assumptions C05_concurrent_own_reply.
+
+(* that discipline, read off the source on every run: Channel.rpc_request *)
+Theorem C05_source_lock_discipline : rpc_shape_ok = true.
+Proof. vm_compute. reflexivity. Qed.
+Print Assumptions C05_source_lock_discipline.
+
+(* and it is needed: with the wait outside the lock two callers can get each other's replies *)
+Theorem C05_narrowed_lock_refuted :
+  exists sched, own_results (crun [[narrowed]; [narrowed]] sched) = false.
+Proof. exact narrowed_lock_refuted. Qed.
+Print Assumptions C05_narrowed_lock_refuted.
+
+Example C05_concurrent_nonvacuous :
+  section_ok [IAcq; ICheck; IReg; IWrite; IWait; IRel] = true /\
+  k_results (crun [[{| cl_name := 7; cl_prog := [IAcq; ICheck; IReg; IWrite; IWait; IRel] |}];
+                   [{| cl_name := 7; cl_prog := [IAcq; ICheck; IReg; IWrite; IWait; IRel] |}]]
+                  [0;1;0;0;1;0;9;1;0;0;1;1;1;1;9;1;1]%nat) = [((0, 0), Some (0, 0)); ((1, 0), Some (1, 0))]%nat.
+Proof. vm_compute. auto. Qed.
